@@ -41,6 +41,8 @@ SIM = {"Lens": "{0, 1, 125, 126, 65535, 65536, 70000}", "MaxMsgs": 3, "MaxFrags"
 
 def frame_len(it):
     n = it[4]
+    if n < 0:
+        return 10
     return 2 + (8 if n > 65535 else 2 if n > 125 else 0) + 4 * it[5] + n
 
 
